@@ -13,7 +13,7 @@ LEVEL_TEXT = (
     're-freezes every owned slot and __deepcopy__ builds them with array_deepcopy, which copies the flag; R5: caller arrays are '
     'frozen in place only under an own_* guard; R6: static classes define no mutators and rebind content slots only in '
     'constructors/refreshers; C.sharing-guards: a static container keeps a donor\'s hash map / level tree / itself only when the donor is static too ("the objects it was built from" clause); R2: arrays returned by public methods annotated np.ndarray are read-only (three-valued). '
-    'Not decided: deep value snapshots over call sequences, mutable elements of object arrays, writes through ndarray.base, '
+    'Fresh arrays: a public method that returns an array it has just made (a direct NumPy allocation, a fancy-indexed copy, the ufunc result of the Index-family axis helper) freezes it before the return (A-R7). Not decided: deep value snapshots over call sequences, mutable elements of object arrays, writes through ndarray.base, '
     'R2 returns whose flow passes an unresolved callee (counted as undecided).')
 
 CLAIM = dict(
@@ -31,5 +31,6 @@ def run(ctx: Ctx) -> None:
     frozen.r5_caller_arrays(ctx, d)
     frozen.r6_no_mutators(ctx, d)
     frozen.r2_public_returns(ctx, d)
+    frozen.r7_fresh_returns(ctx)
     own.c_sharing_guards(ctx)
     ctx.extra['call_resolution'] = dict(d.sums.stats)
